@@ -38,3 +38,63 @@ theorem nodup_akeys_aset' {κ α} [BEq κ] [LawfulBEq κ] (k : κ) (v : α) (m :
 
 
 end Gtfs
+
+namespace Gtfs
+
+theorem mem_iff_alookup' {κ α} [BEq κ] [LawfulBEq κ] (m : List (κ × α)) (h : (akeys m).Nodup) (k : κ) (v : α) :
+    (k, v) ∈ m ↔ alookup k m = some v := by
+  induction m with
+  | nil => simp [alookup]
+  | cons p r ih =>
+    obtain ⟨k', v'⟩ := p
+    simp only [akeys, List.map_cons, List.nodup_cons] at h
+    by_cases hk : k' == k
+    · have hk' : k' = k := by simpa using hk
+      subst hk'
+      simp only [alookup, hk, if_true, List.mem_cons, Prod.mk.injEq, true_and, Option.some.injEq]
+      constructor
+      · rintro (h1 | h1)
+        · exact h1.symm
+        · exact absurd (List.mem_map.mpr ⟨(k', v), h1, rfl⟩) h.1
+      · intro h1; exact Or.inl h1.symm
+    · have hk' : ¬ k' = k := by simpa using hk
+      have hk'' : ¬ k = k' := fun e => hk' e.symm
+      simp only [alookup, hk, Bool.false_eq_true, if_false, List.mem_cons, Prod.mk.injEq, hk'', false_and, false_or]
+      exact ih h.2
+
+theorem nodup_of_nodup_keys {κ α} (m : List (κ × α)) (h : (akeys m).Nodup) : m.Nodup := by
+  induction m with
+  | nil => simp
+  | cons p r ih =>
+    simp only [akeys, List.map_cons, List.nodup_cons] at h ⊢
+    exact ⟨fun hp => h.1 (List.mem_map.mpr ⟨p, hp, rfl⟩), ih h.2⟩
+
+/-- two tables with distinct keys and the same lookups hold the same entries -/
+theorem perm_of_lookup_eq {κ α} [BEq κ] [LawfulBEq κ] (m m' : List (κ × α)) (h : (akeys m).Nodup) (h' : (akeys m').Nodup)
+    (hl : ∀ k, alookup k m = alookup k m') : m.Perm m' := by
+  rw [List.perm_ext_iff_of_nodup (nodup_of_nodup_keys m h) (nodup_of_nodup_keys m' h')]
+  intro p
+  obtain ⟨k, v⟩ := p
+  rw [mem_iff_alookup' m h, mem_iff_alookup' m' h', hl]
+
+/-- `find?` of a predicate with at most one witness is invariant under permutation -/
+theorem find?_perm_of_atMostOne {α} (p : α → Bool) (l l' : List α) (hp : l'.Perm l) (h1 : (l.filter p).length ≤ 1) :
+    l'.find? p = l.find? p := by
+  rw [← List.head?_filter, ← List.head?_filter]
+  have hperm : (l'.filter p).Perm (l.filter p) := hp.filter p
+  have hlen := hperm.length_eq
+  cases hl : l.filter p with
+  | nil =>
+    have : l'.filter p = [] := List.eq_nil_of_length_eq_zero (by rw [hlen, hl]; rfl)
+    rw [this]
+  | cons a r =>
+    have hr : r = [] := by
+      rw [hl] at h1
+      simp only [List.length_cons] at h1
+      exact List.eq_nil_of_length_eq_zero (by omega)
+    subst hr
+    rw [hl] at hperm
+    have := List.perm_singleton.mp hperm
+    rw [this]
+
+end Gtfs
